@@ -339,18 +339,13 @@ func verifyLemma(P *Program, l *Lemma) *FuncReport {
 		m.inputLeaves(p.Name(), p.Type(), v)
 		args = append(args, v)
 	}
-	fr := &Frame{fn: fn, entry: map[string]Value{}, lets: map[string]Value{}}
-	st.frames = []*Frame{fr}
-	fr.env = nil
-	st.frames = nil
-	res := m.pureCallTop(st, fn, args)
+	res := m.pureCall(st, fn, args, nil)[0]
 	o := &Obligation{Func: rep.Name, Name: "lemma." + l.Name, Kind: "lemma", Tags: l.Tags, Desc: l.Expr + "  [" + l.Line + "]", PC: st.pc, Goal: res.(*Term), ctx: m.ctx, Inputs: m.inputs}
 	rep.Obls = []*Obligation{o}
+	for k := range m.trusted {
+		rep.Trusted = append(rep.Trusted, k)
+	}
 	return rep
-}
-
-func (m *Machine) pureCallTop(st *State, fn interface{}, args []Value) Value {
-	panic(unsupported("lemmas not yet supported"))
 }
 
 // tryReplay is filled in by replay.go
